@@ -9,7 +9,11 @@ mod c05;
 mod c06;
 mod c07;
 mod c08;
+mod c09;
+mod c10;
+mod c11;
 mod c12;
+mod c13;
 mod c14;
 mod c15;
 mod c16;
@@ -36,6 +40,9 @@ fn main() {
     }
     if args[1] == "__c07_large" {
         std::process::exit(c07::child_main(&args[2], args[3].parse().unwrap_or(1)));
+    }
+    if args[1] == "__c10_child" {
+        std::process::exit(c10::child_main(args[2].parse().unwrap_or(1), args[3].parse().unwrap_or(10), args[4].parse().unwrap_or(1)));
     }
     let prop = args[1].to_uppercase();
     let mut tier = std::env::var("VERIF_TIER").ok().filter(|t| t == "quick" || t == "thorough").unwrap_or_else(|| "quick".to_string());
@@ -74,7 +81,11 @@ fn main() {
             "C06" => c06::replay(&ctx, case),
             "C07" => c07::replay(&ctx, case),
             "C08" => c08::replay(&ctx, case),
+            "C09" => c09::replay(&ctx, case),
+            "C10" => c10::replay(&ctx, case),
+            "C11" => c11::replay(&ctx, case),
             "C12" => c12::replay(&ctx, case),
+            "C13" => c13::replay(&ctx, case),
             "C15" => c15::replay(&ctx, case),
             "C16" => c16::replay(&ctx, case),
             _ => {
@@ -108,7 +119,11 @@ fn main() {
         "C06" => c06::run(&ctx),
         "C07" => c07::run(&ctx),
         "C08" => c08::run(&ctx),
+        "C09" => c09::run(&ctx),
+        "C10" => c10::run(&ctx),
+        "C11" => c11::run(&ctx),
         "C12" => c12::run(&ctx),
+        "C13" => c13::run(&ctx),
         "C14" => c14::run(&ctx),
         "C15" => c15::run(&ctx),
         "C16" => c16::run(&ctx),
